@@ -6,6 +6,9 @@ import Mathlib.LinearAlgebra.Matrix.DotProduct
 import Mathlib.Data.Matrix.Mul
 import Mathlib.Tactic.Ring
 import Mathlib.Tactic.Linarith
+import Mathlib.Tactic.Abel
+import Mathlib.Tactic.FieldSimp
+import Mathlib.Algebra.BigOperators.Field
 import Mathlib.Algebra.Order.Field.Rat
 namespace PsVerif
 open Matrix
@@ -20,42 +23,75 @@ def NormalEq (M : Matrix (Fin p) (Fin m) ℚ) (y : Fin p → ℚ) (c : Fin m →
 def sq (v : Fin p → ℚ) : ℚ := v ⬝ᵥ v
 
 theorem sq_nonneg' (v : Fin p → ℚ) : 0 ≤ sq v := by
-  sorry
+  unfold sq dotProduct
+  exact Finset.sum_nonneg (fun i _ => mul_self_nonneg _)
 
 theorem sq_eq_zero_iff (v : Fin p → ℚ) : sq v = 0 ↔ v = 0 := by
-  sorry
+  unfold sq
+  exact dotProduct_self_eq_zero
+
+/-- adjointness: `(M d) ⬝ w = d ⬝ (Mᵀ w)` -/
+theorem mulVec_dot_adj (M : Matrix (Fin p) (Fin m) ℚ) (d : Fin m → ℚ) (w : Fin p → ℚ) :
+    (M *ᵥ d) ⬝ᵥ w = d ⬝ᵥ (Mᵀ *ᵥ w) := by
+  rw [dotProduct_comm, Matrix.dotProduct_mulVec, ← Matrix.mulVec_transpose, dotProduct_comm]
+
+/-- Pythagoras: orthogonal summands -/
+theorem sq_add_of_orth (u v : Fin p → ℚ) (h : v ⬝ᵥ u = 0) : sq (u + v) = sq u + sq v := by
+  unfold sq
+  rw [add_dotProduct, dotProduct_add, dotProduct_add, h, dotProduct_comm u v, h]
+  ring
 
 /-- the residual of a solution of the normal equations is orthogonal to the range of `M` -/
 theorem normalEq_orth (M : Matrix (Fin p) (Fin m) ℚ) (y : Fin p → ℚ) (c : Fin m → ℚ)
     (h : NormalEq M y c) (d : Fin m → ℚ) : (M *ᵥ d) ⬝ᵥ (M *ᵥ c - y) = 0 := by
-  sorry
+  have h0 : Mᵀ *ᵥ (M *ᵥ c - y) = 0 := by
+    rw [Matrix.mulVec_sub]; unfold NormalEq at h; rw [h, sub_self]
+  rw [mulVec_dot_adj, h0, dotProduct_zero]
 
 /-- **normal equations ⇒ least-squares optimal** (Pythagoras) -/
 theorem ls_optimal (M : Matrix (Fin p) (Fin m) ℚ) (y : Fin p → ℚ) (c : Fin m → ℚ)
     (h : NormalEq M y c) (c' : Fin m → ℚ) : sq (M *ᵥ c - y) ≤ sq (M *ᵥ c' - y) := by
-  sorry
+  have e : M *ᵥ c' - y = (M *ᵥ c - y) + M *ᵥ (c' - c) := by
+    rw [Matrix.mulVec_sub]; abel
+  rw [e, sq_add_of_orth _ _ (normalEq_orth M y c h (c' - c))]
+  have := sq_nonneg' (M *ᵥ (c' - c))
+  linarith
 
 /-- independent columns (full column rank): the normal equations have at most one solution -/
 theorem ls_unique (M : Matrix (Fin p) (Fin m) ℚ) (hinj : Function.Injective M.mulVec)
     (y : Fin p → ℚ) (c c' : Fin m → ℚ) (h : NormalEq M y c) (h' : NormalEq M y c') : c = c' := by
-  sorry
+  unfold NormalEq at h h'
+  have h0 : Mᵀ *ᵥ (M *ᵥ (c - c')) = 0 := by
+    rw [Matrix.mulVec_sub, Matrix.mulVec_sub, h, h', sub_self]
+  have h1 : sq (M *ᵥ (c - c')) = 0 := by
+    unfold sq
+    rw [mulVec_dot_adj, h0, dotProduct_zero]
+  have h2 : M *ᵥ (c - c') = 0 := (sq_eq_zero_iff _).1 h1
+  have h3 : c - c' = 0 := hinj (by rw [h2, Matrix.mulVec_zero])
+  exact sub_eq_zero.1 h3
 
 /-- **in-span signals are reproduced**: if the measurements are `M a`, the coefficients are `a` -/
 theorem ls_recovers (M : Matrix (Fin p) (Fin m) ℚ) (hinj : Function.Injective M.mulVec)
     (a c : Fin m → ℚ) (h : NormalEq M (M *ᵥ a) c) : c = a := by
-  sorry
+  exact ls_unique M hinj (M *ᵥ a) c a h rfl
 
 /-- independent rows (full row rank, no more sensors than modes): every solution of the normal
 equations interpolates the measurements -/
 theorem ls_interpolates (M : Matrix (Fin p) (Fin m) ℚ) (hrow : Function.Injective Mᵀ.mulVec)
     (y : Fin p → ℚ) (c : Fin m → ℚ) (h : NormalEq M y c) : M *ᵥ c = y := by
-  sorry
+  have h0 : Mᵀ *ᵥ (M *ᵥ c - y) = 0 := by
+    rw [Matrix.mulVec_sub]; unfold NormalEq at h; rw [h, sub_self]
+  have h1 : M *ᵥ c - y = 0 := hrow (by rw [h0, Matrix.mulVec_zero])
+  exact sub_eq_zero.1 h1
 
 /-- the normal equations are linear in `(y, c)` -/
 theorem normalEq_linear (M : Matrix (Fin p) (Fin m) ℚ) (y₁ y₂ : Fin p → ℚ) (c₁ c₂ : Fin m → ℚ)
     (h₁ : NormalEq M y₁ c₁) (h₂ : NormalEq M y₂ c₂) (α β : ℚ) :
     NormalEq M (α • y₁ + β • y₂) (α • c₁ + β • c₂) := by
-  sorry
+  unfold NormalEq at *
+  rw [Matrix.mulVec_add, Matrix.mulVec_add, Matrix.mulVec_add, Matrix.mulVec_smul,
+    Matrix.mulVec_smul, Matrix.mulVec_smul, Matrix.mulVec_smul, Matrix.mulVec_smul,
+    Matrix.mulVec_smul, h₁, h₂]
 
 /-- minimum-norm form `c = Mᵀ z` with `M Mᵀ z = y`: it solves `M c = y`, hence the normal
 equations, and has the smallest norm among all solutions of `M c' = y` -/
@@ -63,17 +99,39 @@ theorem minnorm_spec (M : Matrix (Fin p) (Fin m) ℚ) (y : Fin p → ℚ) (z : F
     (hz : M *ᵥ (Mᵀ *ᵥ z) = y) :
     M *ᵥ (Mᵀ *ᵥ z) = y ∧ NormalEq M y (Mᵀ *ᵥ z) ∧
       ∀ c' : Fin m → ℚ, M *ᵥ c' = y → (Mᵀ *ᵥ z) ⬝ᵥ (Mᵀ *ᵥ z) ≤ c' ⬝ᵥ c' := by
-  sorry
+  refine ⟨hz, ?_, ?_⟩
+  · unfold NormalEq; rw [hz]
+  · intro c' hc'
+    have hk : M *ᵥ (c' - Mᵀ *ᵥ z) = 0 := by
+      rw [Matrix.mulVec_sub, hz, hc', sub_self]
+    have horth : (c' - Mᵀ *ᵥ z) ⬝ᵥ (Mᵀ *ᵥ z) = 0 := by
+      rw [← mulVec_dot_adj, hk, zero_dotProduct]
+    have e : c' = Mᵀ *ᵥ z + (c' - Mᵀ *ᵥ z) := by abel
+    have hp := sq_add_of_orth (Mᵀ *ᵥ z) (c' - Mᵀ *ᵥ z) horth
+    rw [← e] at hp
+    have := sq_nonneg' (c' - Mᵀ *ᵥ z)
+    unfold sq at hp this
+    linarith
 
 /-- the minimum-norm solution is unique -/
 theorem minnorm_unique (M : Matrix (Fin p) (Fin m) ℚ) (y : Fin p → ℚ) (z z' : Fin p → ℚ)
     (hz : M *ᵥ (Mᵀ *ᵥ z) = y) (hz' : M *ᵥ (Mᵀ *ᵥ z') = y) : Mᵀ *ᵥ z = Mᵀ *ᵥ z' := by
-  sorry
+  have hk : M *ᵥ (Mᵀ *ᵥ z - Mᵀ *ᵥ z') = 0 := by
+    rw [Matrix.mulVec_sub, hz, hz', sub_self]
+  have e : Mᵀ *ᵥ z - Mᵀ *ᵥ z' = Mᵀ *ᵥ (z - z') := by rw [Matrix.mulVec_sub]
+  have h1 : sq (Mᵀ *ᵥ z - Mᵀ *ᵥ z') = 0 := by
+    unfold sq
+    nth_rewrite 2 [e]
+    rw [← mulVec_dot_adj, hk, zero_dotProduct]
+  exact sub_eq_zero.1 ((sq_eq_zero_iff _).1 h1)
 
 /-- relative error: dividing the difference by the norm of the data scales its squared norm -/
 theorem rel_error_sq (d q : Fin p → ℚ) (s : ℚ) (hs : s ≠ 0) :
     sq (fun i => (d i - q i) / s) = sq (fun i => d i - q i) / (s * s) := by
-  sorry
+  unfold sq dotProduct
+  rw [Finset.sum_div]
+  refine Finset.sum_congr rfl (fun i _ => ?_)
+  field_simp
 
 /-- selection matrix of a sensor list: row `i` is the unit vector of sensor `σ i` -/
 def selMatrix (σ : Fin p → Fin n) : Matrix (Fin p) (Fin n) ℚ := fun i j => if σ i = j then 1 else 0
@@ -81,6 +139,7 @@ def selMatrix (σ : Fin p → Fin n) : Matrix (Fin p) (Fin n) ℚ := fun i j => 
 /-- `C · Φ` gathers the sensor rows of the basis matrix -/
 theorem gather_eq_selection_mul (σ : Fin p → Fin n) (B : Matrix (Fin n) (Fin m) ℚ) :
     selMatrix σ * B = fun i j => B (σ i) j := by
-  sorry
+  ext i j
+  simp [selMatrix, Matrix.mul_apply]
 
 end PsVerif
